@@ -10,6 +10,7 @@ struct FileSpec {
 	long mtime = 0;		// seconds; 0 = "epoch of the run"
 	bool ro = false;	// not writable (EACCES on open for writing)
 	bool dir = false;	// a directory (EISDIR)
+	std::string link;	// non-empty: a symbolic link to this path (data unused)
 };
 
 struct Fault {
@@ -77,6 +78,7 @@ struct Plan {
 			o.set("path", f.path).set("data", f.data).set("mtime", f.mtime);
 			if (f.ro) o.set("ro", true);
 			if (f.dir) o.set("dir", true);
+			if (!f.link.empty()) o.set("link", f.link);
 			fs.push(o);
 		}
 		j.set("files", fs);
@@ -132,7 +134,7 @@ struct Plan {
 		for (auto &f : j.at("files").a) {
 			FileSpec fs;
 			fs.path = f.str("path"); fs.data = f.str("data"); fs.mtime = f.num("mtime");
-			fs.ro = f.boolean("ro"); fs.dir = f.boolean("dir");
+			fs.ro = f.boolean("ro"); fs.dir = f.boolean("dir"); fs.link = f.str("link");
 			p.files.push_back(fs);
 		}
 		for (auto &s : j.at("steps").a) {
